@@ -254,4 +254,13 @@ def sortInPlace (w : World) (t : Target) (asc : Bool) : World :=
 def mkSet (w : World) (m : Nat) (l : List Aid) : World :=
   { w with sets := w.sets ++ [(m, dedup (l.filter (alive w)))] }
 
+/-- `set.select()` without criteria (= `copy.copy(set)`: `__getstate__` lists the members, `__setstate__` builds a new weak
+    dictionary over them and takes the generator along): a new program-made set; the original is not touched and shares
+    nothing with the copy -/
+def copySet (w : World) (t : Target) : World := mkSet w (t.model w) (members w t)
+
+/-- `AgentSet.__getitem__`: `list(self._agents.keys())[i]` — the live keys listed anew on every access; reading every
+    position (or the full slice) shows exactly what iteration shows -/
+def itemsOf (w : World) (t : Target) : List Aid := members w t
+
 end Mesa.Agents
